@@ -27,12 +27,12 @@ func init() {
 func checkC11(tier, replay string) int {
 	run := evid.NewRun("C11", tier, "exploration")
 	run.Rule("arbitrary client bytes: (1) exhaustive grid opcode 0x00..0xFF x key length x extras length x total body (incl. inconsistent and wrapped values) with 0-64 following bytes, " +
-		"(2) mutations of valid requests (every single-bit flip of the header, truncation at every offset, length-field edits), (3) malformed text commands, (4) Go native coverage-guided fuzzing of both parsers " +
-		"- all under the parser-level monitors (panic, allocation <= constant + consistently declared sizes + supplied bytes, reads <= input bytes, termination on EOF); " +
+		"(2) mutations of valid requests (every single-bit flip of the header, truncation at every offset, length-field edits), (3) malformed text commands and runs of up to 40000 empty lines, (4) Go native coverage-guided fuzzing of both parsers " +
+		"- all under the parser-level monitors (panic, heap allocation and goroutine-stack growth <= constant + consistently declared sizes + supplied bytes, reads <= input bytes, termination on EOF); " +
 		"the same inputs go to the real memproxy over a socket: it must reply with an error or close that connection, keep running and keep serving a control connection; " +
-		"inconsistent frames are also sent WITHOUT closing the client side: the server must not wait for the bogus length. " +
+		"inconsistent frames are also sent WITHOUT closing the client side: the server must not wait for the bogus length (set/append family: a wait inside the value read; key-only commands whose fixed-format bytes are all supplied and followed by a noop: any wait behind the header; state read from the goroutine dump). " +
 		"distinct_nontrivial = distinct inputs by hash")
-	run.Assume("memory is measured as Go heap allocation (runtime/metrics), not RSS; inputs that consistently declare more than 1 MiB are skipped and counted")
+	run.Assume("memory is measured as Go heap allocation and stack memory (runtime/metrics), not RSS; inputs that consistently declare more than 1 MiB are skipped and counted")
 	res := spawnChild(run, "C11", 25*time.Minute, nil)
 	if res.Crashed || res.TimedOut {
 		w := map[string]interface{}{"last_case": res.LastCase, "stderr_tail": lastLines(res.Stderr, 60)}
@@ -197,7 +197,7 @@ func childC11(args []string) int {
 			}
 			run.Violation(fmt.Sprintf("parser|%s|%s|%s", protoName(binary), opname, canonAnomaly(r.Violation)), map[string]interface{}{
 				"class": class, "input_hex": fmt.Sprintf("%x", in[:minInt(len(in), 256)]), "input_len": len(in), "read_step": step,
-				"allocated": r.Allocated, "bound": r.Bound, "reads": r.Reads, "parses": r.Parses, "last_error": r.LastErr,
+				"allocated": r.Allocated, "stack_growth": r.Stack, "bound": r.Bound, "reads": r.Reads, "parses": r.Parses, "last_error": r.LastErr,
 			})
 		}
 	}
@@ -213,6 +213,15 @@ func childC11(args []string) int {
 			examine("mutation", binary, in, (i%3)*1)
 		}
 		run.Count("mutations", int64(len(muts)))
+	}
+	// long runs of empty / blank request lines (keep-alive style): memory, stack included, must
+	// not grow with the length of the run
+	for _, unit := range []string{"\r\n", "\n", "  \r\n"} {
+		for _, n := range []int{1000, 40000} {
+			in := []byte(strings.Repeat(unit, n) + "get a\r\n")
+			examine("empty-lines", false, in, 0)
+			run.Count("empty_line_runs_examined", 1)
+		}
 	}
 	for _, f := range c11TextForms {
 		examine("text-form", false, []byte(f), 0)
@@ -294,6 +303,38 @@ func c11Server(run *evid.Run) {
 			add("truncated-"+q, true, append(append([]byte(nil), full...), full[:cut]...))
 		}
 	}
+	// key-only commands whose total body contradicts key + extras. Everything the command's fixed
+	// format needs (touch / gat: 4 bytes of expiry, then the key) is supplied, followed by a
+	// complete noop, and the client stays connected: a parser that still waits inside this
+	// request waits for a length it derived from the contradictory fields
+	{
+		ops := []byte{0x00, 0x04, 0x1c, 0x1d, 0x40}
+		kls := []uint16{3}
+		if run.Thorough() {
+			ops = []byte{0x00, 0x09, 0x0c, 0x0d, 0x04, 0x14, 0x1c, 0x1d, 0x1e, 0x40, 0x41}
+			kls = []uint16{1, 3, 250}
+		}
+		for _, op := range ops {
+			el := byte(0)
+			if op == 0x1c || op == 0x1d || op == 0x1e {
+				el = 4
+			}
+			for _, kl := range kls {
+				ke := uint32(kl) + uint32(el)
+				for _, total := range []uint32{0, uint32(kl) - 1, uint32(kl) + 1, ke - 1} {
+					if total >= ke {
+						continue
+					}
+					b := wire.BinHeader(op, kl, el, total, 0x0b0c0d0e)
+					for i := 0; i < int(ke); i++ {
+						b = append(b, byte('a'+i%26))
+					}
+					b = append(b, wire.BinHeader(0x0a, 0, 0, 0, 0x7778)...)
+					add("inconsistent-keyonly", true, b)
+				}
+			}
+		}
+	}
 	for _, n := range []int{4095, 4096, 4097, 10000} {
 		var b []byte
 		for i := 0; i < n; i++ {
@@ -334,7 +375,7 @@ func c11Server(run *evid.Run) {
 			run.Count("server_inputs_skipped_declared_over_1MiB", 1)
 			continue
 		}
-		noClose := ownsDebug && inp.binary && parsemon.InconsistentFirstFrame(in) && i%2 == 0
+		noClose := ownsDebug && inp.binary && parsemon.InconsistentFirstFrame(in) && (i%2 == 0 || inp.class == "inconsistent-keyonly")
 		if serverViolations >= 6 {
 			run.Count("server_inputs_not_run_after_6_violations", 1)
 			continue
@@ -353,16 +394,32 @@ func c11Server(run *evid.Run) {
 		var n int64
 		var rerr error
 		if noClose {
-			// wait (bounded) for a reply or a close; then decide from the server's goroutines
-			cl.Conn.SetReadDeadline(time.Now().Add(2 * time.Second))
-			n, rerr = io.Copy(io.Discard, cl.R)
-			if rerr != nil {
+			// wait (bounded) for a reply or a close, looking at the server's goroutines in
+			// between: a connection goroutine back at "read the next header" is idle, which is
+			// legitimate while the client stays connected; one still inside Parse behind the
+			// header after 2 s waits for bytes the frame never consistently declared
+			deadline := time.Now().Add(2 * time.Second)
+			for {
+				cl.Conn.SetReadDeadline(time.Now().Add(150 * time.Millisecond))
+				var n2 int64
+				n2, rerr = io.Copy(io.Discard, cl.R)
+				n += n2
+				if rerr == nil || !isTimeout(rerr) {
+					break
+				}
 				dump, derr := p.DebugGet("/debug/pprof/goroutine?debug=2")
-				parked := len(blocksWith(dump, "binprot.setRequest", "io.ReadAtLeast")) > 0 || len(blocksWith(dump, "binprot.appendPrependRequest", "io.ReadAtLeast")) > 0
-				if derr == nil && !parked {
-					// answered (or not) and waiting for the next request: legitimate, the client is still connected
+				if derr == nil && !parkedInBody(dump) {
 					rerr = nil
 					run.Count("server_idle_after_inconsistent_frame", 1)
+					break
+				}
+				if time.Now().After(deadline) {
+					if derr == nil && !bogusWait(dump, inp.class) {
+						// still reading the key / extras bytes the header itself declares
+						rerr = nil
+						run.Count("server_waits_for_declared_key_or_extras", 1)
+					}
+					break
 				}
 			}
 		} else {
@@ -399,7 +456,7 @@ func c11Server(run *evid.Run) {
 			dump := p.GoroutineDumpKill()
 			w["goroutines"] = lastLines(filterDump(dump), 60)
 			switch {
-			case len(blocksWith(dump, "binprot.setRequest", "io.ReadAtLeast")) > 0 || len(blocksWith(dump, "binprot.appendPrependRequest", "io.ReadAtLeast")) > 0:
+			case bogusWait(dump, inp.class):
 				if parsemon.InconsistentFirstFrame(in) {
 					sig = "server|waits for the bogus length of an inconsistent frame"
 				} else if noClose {
@@ -581,4 +638,26 @@ func runWithTimeout(cmd *exec.Cmd, d time.Duration) ([]byte, error) {
 func isTimeout(err error) bool {
 	var ne interface{ Timeout() bool }
 	return errors.As(err, &ne) && ne.Timeout()
+}
+
+// parkedInBody reports whether a connection goroutine sits inside the binary parser behind the
+// request header: waiting for key, extras, value or padding bytes.
+func parkedInBody(dump string) bool {
+	for _, b := range goroutineBlocks(dump) {
+		if strings.Contains(b, "binprot.BinaryParser.Parse") && !strings.Contains(b, "binprot.readRequestHeader") &&
+			(strings.Contains(b, "[IO wait") || strings.Contains(b, "[select") || strings.Contains(b, "[chan receive")) {
+			return true
+		}
+	}
+	return false
+}
+
+// bogusWait: the connection goroutine waits for a value whose length was computed from
+// contradictory fields (set / append family), or - for the key-only inputs that supply
+// everything their fixed format needs - waits anywhere behind the header.
+func bogusWait(dump, class string) bool {
+	if len(blocksWith(dump, "binprot.setRequest", "io.ReadAtLeast")) > 0 || len(blocksWith(dump, "binprot.appendPrependRequest", "io.ReadAtLeast")) > 0 {
+		return true
+	}
+	return class == "inconsistent-keyonly" && parkedInBody(dump)
 }
